@@ -184,6 +184,39 @@ def run_config(args):
             "nontrivial": res.nontrivial, "violations": res.violations, "sample": res.samples[:1]}
 
 
+def late_construction():
+    """a decoder created long after the library was imported (a long-running process that opens another gateway): its
+    discovery window starts when IT is created.  The frozen clock is moved to eleven minutes after the real import time."""
+    import datetime as _dt
+    vios, n = [], 0
+    pk = packets()
+    minutes = (_dt.datetime.now() - common.FROZEN_NOW).total_seconds() / 60.0 + 11.0
+    common.set_clock_offset(minutes)
+    try:
+        for mode, ml in (("exclude", ()), ("exclude", ("Garmin",)), ("include", ("furuno",))):
+            cfg = Cfg(True, mode, ml, False)
+            dec = cfg.decoder()
+            names = {s: None for s in SOURCES}
+            for ev in ("d0", "d2", "claim_a0", "d0", "d2", "claim_b2", "d2", "d0"):
+                src = int(ev[-1])
+                m = dec.decode_tcp(pk[ev])
+                n += 1
+                if ev.startswith("claim_"):
+                    names[src] = NAMES[ev[6]]
+                    continue
+                ok = cfg.permitted(names[src])
+                if (m is not None) != ok:
+                    vios.append({"kind": "data_leaked" if m is not None else "data_withheld", "facts": {"config": cfg.label(), "mechanism": "decoder_created_late"},
+                                 "signature": f"late:{cfg.label()}:{ev}",
+                                 "detail": f"[{cfg.label()}, decoder created 11 minutes after the library was imported, event {ev}] source {src} (claimed "
+                                           f"{ref_identity(names[src])}) is {'not ' if not ok else ''}permitted but its message was {'returned' if m is not None else 'not returned'}",
+                                 "case": {"late_construction": True, "mode": mode, "mlist": list(ml)}})
+                    break
+    finally:
+        common.set_clock_offset(0)
+    return n, vios
+
+
 def _client_task(args):
     """the same through a gateway client that loses its link and reconnects by itself: what the sources claimed on the first
     connection still holds on the second (the client's decoder is one long-lived decoder)"""
@@ -257,6 +290,8 @@ def run(ctx):
     for cn, cv in cres:
         vios += cv
     client_runs = sum(cn for cn, _ in cres)
+    ln, lv = late_construction()
+    vios += lv
     states = trans = nontriv = depth = 0
     closed = True
     for r in results:
@@ -284,6 +319,8 @@ def run(ctx):
 
 def replay(ctx, rep):
     c = rep["case"]
+    if c.get("late_construction"):
+        return late_construction()[1][:1]
     if "client" in c:
         n, v = _client_task((c["client"], c.get("map_on", False), c.get("mode", "exclude"), tuple(c.get("mlist", ()))))
         return [x for x in v if x["case"]["how"] == c["how"]][:1]
